@@ -1068,7 +1068,7 @@ func (e *Env) evalFunc(f *FuncExpr) Value {
 		h := sha256.Sum256(data)
 		return h[:]
 	case "nextval":
-		return big.NewInt(ex.db.nextval(ex.seqKey(text(a[0]))))
+		return big.NewInt(ex.sess.nextval(ex.seqKey(text(a[0]))))
 	case "setval":
 		if strict() {
 			return nil
@@ -1077,7 +1077,7 @@ func (e *Env) evalFunc(f *FuncExpr) Value {
 		if len(a) > 2 {
 			isCalled, _ = truth(a[2])
 		}
-		ex.db.setval(ex.seqKey(text(a[0])), asNum(a[1]).Int64(), isCalled)
+		ex.sess.setval(ex.seqKey(text(a[0])), asNum(a[1]).Int64(), isCalled)
 		return asNum(a[1])
 	case "transaction_date":
 		return ex.sess.txDate()
